@@ -58,6 +58,7 @@ class ModelInner:
         self.frozen = False
         self.pre_mutation = None  # hook(kind, args) called before each primitive (C16 interference)
         self.fail_paths = {}  # path -> exception to raise when a file is *placed* there (fault injection)
+        self.after_read = None  # one-shot hook(path) called after a file's content was handed to a reader (C13 race)
         self.hook_on_reads = False  # also give the interference hook a turn before every query (stat/exists/read/list) of the code
         self.two_step_writes = False  # model create/truncate and content write as two crash points (C15)
         self.reverse_listing = False  # directory listing order is unspecified: harnesses may flip it
@@ -483,6 +484,9 @@ class ModelInner:
     def open(self, p, mode="r", encoding=None, **kw):
         if "r" in mode and "+" not in mode:
             d = self.read(p)
+            if self.after_read is not None:
+                hook, self.after_read = self.after_read, None
+                hook(self._resolve(p))
             return io.BytesIO(d) if "b" in mode else io.StringIO(d.decode(encoding or "utf-8"))
         fs = self
 
